@@ -1,12 +1,16 @@
 ------------------------- MODULE Trace_SharedProgram -------------------------
-(* Validates executions recorded from the real interpreter: G interpreters,  *)
-(* each created with interp.New over ONE *parser.Program, executed one after *)
-(* another and then concurrently from G goroutines.  Events of one trace:     *)
-(*   {"ev":"step","op":"parse","digest":D,"solo":R}   the program was parsed; *)
-(*                          D = structural digest of the Program, R = result *)
-(*                          of one execution on a program of its own          *)
-(*   {"ev":"step","op":"exec","proc":i,"phase":"seq"|"conc",                  *)
-(*    "before":D1,"after":D2,"result":R}   one Execute of interpreter i       *)
+(* Validates executions recorded from the real interpreter: ONE             *)
+(* *parser.Program executed several times one after another and then from G  *)
+(* goroutines at the same time, every execution with an interpreter of its   *)
+(* own, through every execution interface of the package.  Events of a trace: *)
+(*   {"ev":"step","op":"parse","digest":D,"solo":{"v0":R0,...}}   the program *)
+(*                          was parsed; D = structural digest of the Program  *)
+(*                          (state of its compiled regular expressions        *)
+(*                          included), Rk = result of ONE execution on a      *)
+(*                          Program of its own under variant k of Config.Funcs*)
+(*   {"ev":"step","op":"exec","proc":i,"phase":"seq"|"conc","api":A,          *)
+(*    "variant":"vk","before":D1,"after":D2,"result":R}   one execution       *)
+(*                          through interface A (SharedProgram!ApiOf)         *)
 (*   {"ev":"step","op":"parses","n":N,"distinct":K,"hasprog":B,"prog":P}      *)
 (*                          the same source parsed N times gave K distinct    *)
 (*                          (verdict, message, position, disassembly,         *)
@@ -14,9 +18,10 @@
 (*                          program of Resolver.tla when the source was       *)
 (*                          rendered from one (B)                             *)
 (* The abstraction keeps of the shared program only its digest, of an         *)
-(* interpreter only its result; the actions are those of SharedProgram:       *)
-(* a step of process i leaves `program` unchanged (Immutable), and a finished *)
-(* process holds the result of running alone (Equivalent).                    *)
+(* execution only its result; the actions are those of SharedProgram:         *)
+(* an execution leaves `program` unchanged (Immutable), and holds the result  *)
+(* of running alone (Equivalent) -- whichever interface started it, however   *)
+(* many executions came before, whatever they drew from the random generator. *)
 EXTENDS Resolver, TraceBase
 
 VARIABLES l, program, solo
@@ -27,25 +32,30 @@ Init == l = 1 /\ program = "" /\ solo = ""
 Explains(ev) ==
   CASE ev.op = "parse"  -> TRUE
     [] ev.op = "exec"   -> /\ ev.before = program /\ ev.after = program      \* [][program' = program]_vars
-                           /\ ev.result = solo                               \* Equivalent
+                           /\ ev.result = solo[ev.variant]                  \* Equivalent
     [] ev.op = "parses" -> ev.distinct = 1                                   \* Deterministic
     [] OTHER -> FALSE
+
+\* the execution interfaces (SharedProgram!ApiOf)
+ExecApis == {"new-execute", "new-executecontext", "execprogram"}
 
 TStep ==
   /\ l <= NLog /\ Log[l].ev = "step"
   /\ LET ev == Log[l]
-     IN IF Explains(ev)
-        THEN /\ l' = l + 1
-             /\ program' = IF ev.op = "parse" THEN ev.digest ELSE program
-             /\ solo' = IF ev.op = "parse" THEN ev.solo ELSE solo
-        ELSE /\ Reject(l, [op |-> ev.op, expected |-> [program |-> program, result |-> solo, distinct |-> 1],
-                            \* how many first errors the as-built inference can report for this program
-                            \* (Resolver!PossibleOrders under Go's map order): > 1 explains a varying message
-                            modelErrors |-> IF ev.op = "parses" /\ ev.hasprog
-                                            THEN Cardinality({ObsError(RunWithOrder(ev.prog, o, IdentityOrder(ev.prog)))
-                                                              : o \in PossibleOrders(ev.prog, "any")})
-                                            ELSE 0])
-             /\ l' = AfterNextReset(l) /\ program' = "" /\ solo' = ""
+     IN /\ Assert(ev.op = "exec" => (ev.api \in ExecApis /\ ev.variant \in DOMAIN solo),
+                  <<"recorded execution outside the specified domain", l>>)
+        /\ IF Explains(ev)
+           THEN /\ l' = l + 1
+                /\ program' = IF ev.op = "parse" THEN ev.digest ELSE program
+                /\ solo' = IF ev.op = "parse" THEN ev.solo ELSE solo
+           ELSE /\ Reject(l, [op |-> ev.op, expected |-> [program |-> program, result |-> solo, distinct |-> 1],
+                               \* how many first errors the as-built inference can report for this program
+                               \* (Resolver!PossibleOrders under Go's map order): > 1 explains a varying message
+                               modelErrors |-> IF ev.op = "parses" /\ ev.hasprog
+                                               THEN Cardinality({ObsError(RunWithOrder(ev.prog, o, IdentityOrder(ev.prog)))
+                                                                 : o \in PossibleOrders(ev.prog, "any")})
+                                               ELSE 0])
+                /\ l' = AfterNextReset(l) /\ program' = "" /\ solo' = ""
 TReset == l <= NLog /\ Log[l].ev = "reset" /\ l' = l + 1 /\ program' = "" /\ solo' = ""
 TDone == l = NLog + 1 /\ PrintT("TRACE-END") /\ l' = l + 1 /\ UNCHANGED <<program, solo>>
 Next == TStep \/ TReset \/ TDone
